@@ -23,7 +23,7 @@ from elementpath.exceptions import xpath_error, ElementPathError, ElementPathVal
 from elementpath.namespaces import XSD_ANY_TYPE, XSD_ANY_SIMPLE_TYPE, XSD_ANY_ATOMIC_TYPE
 from elementpath.namespaces import XSD_NAMESPACE, XPATH_MATH_FUNCTIONS_NAMESPACE
 from elementpath.datatypes import AnyAtomicType, AbstractDateTime, AnyURI, \
-    DayTimeDuration, Date, DateTime, DecimalProxy, Duration, Integer, QName, \
+    DayTimeDuration, Date, DateTime, DateTimeStamp, DecimalProxy, Duration, Integer, QName, \
     Timezone, UntypedAtomic, AbstractQName, AbstractBinary
 from elementpath.tdop import Token, MultiLabel
 from elementpath.helpers import ordinal, get_double
@@ -760,6 +760,8 @@ class XPathToken(Token[ta.XPathTokenType]):
             if item is None:
                 return []
 
+        if timezone is None and isinstance(item, DateTimeStamp):
+            item = DateTime.make(item, parser=self.parser)  # without a timezone no more an xs:dateTimeStamp
         _item = copy(item)
         _tzinfo = _item.tzinfo
         try:
